@@ -11,6 +11,7 @@ import (
 
 	ocispec "github.com/opencontainers/image-spec/specs-go/v1"
 	"oras.land/oras-go/v2/content"
+	"oras.land/oras-go/v2/errdef"
 	"verif.local/engine/vs"
 )
 
@@ -293,7 +294,7 @@ func Populate(st content.Pusher, d *DAG, ids []int) error {
 	sort.Ints(sorted) // ids are topological: children are created before parents
 	for _, id := range sorted {
 		n := d.Nodes[id]
-		if err := st.Push(context.Background(), n.Desc, bytes.NewReader(n.Bytes)); err != nil {
+		if err := st.Push(context.Background(), n.Desc, bytes.NewReader(n.Bytes)); err != nil && !errors.Is(err, errdef.ErrAlreadyExists) {
 			return fmt.Errorf("populate %s: %w", n.Name, err)
 		}
 	}
